@@ -45,7 +45,7 @@ structure DocOkM (s : SchemaD) (d : Doc) : Prop where
 theorem docOkM_of_docOk {s : SchemaD} {d : Doc} (h : DocOk s d) : DocOkM s d :=
   ⟨⟨h.checks.ids, h.checks.noMeta⟩, h.names⟩
 
-/-- **accepted ⇒ valid by all 26 clauses**, for the chain with the memoised overlap rule -/
+/-- **accepted ⇒ valid by all 26 clauses**, the overlap rule being the memoised one [ALONE-RUN statement: every rule visitor is run in a chain of its own, `Silent` / `SilentM` count RECORDED ERRORS only (a run that raised is not excluded); the statement about the chain `validate_ast` runs, exception flag included, is in `Props/C06_chain.lean`: `chainM_accepted_spec_valid`.] -/
 theorem accepted_spec_valid_all_memo (s : SchemaD) (fx : Fixes) (hfx : HeadVars fx) (hs : SchemaOutputs s) (d : Doc)
     (hd : DocOkM s d) (h : ∀ r ∈ Rule.all, SilentM s fx r d) : ∀ r ∈ Rule.all, SpecAll r s fx d := by
   have hsil : ∀ r ∈ Rule.all, r ≠ .overlappingFieldsCanBeMerged → Silent s fx r d := fun r hr ho =>
@@ -62,7 +62,7 @@ theorem accepted_spec_valid_all_memo (s : SchemaD) (fx : Fixes) (hfx : HeadVars 
       (silentM_overlap.mp (h _ hr))
   · exact h25 r hr ho
 
-/-- **valid by all 26 clauses ⇒ accepted** (no side condition of the merge rule at all) -/
+/-- **valid by all 26 clauses ⇒ accepted** (no side condition of the merge rule at all) [ALONE-RUN statement: every rule visitor is run in a chain of its own, `Silent` / `SilentM` count RECORDED ERRORS only (a run that raised is not excluded); the statement about the chain `validate_ast` runs, exception flag included, is in `Props/C06_chain.lean`: `spec_valid_chainM_accepts`; that the lone memoised overlap run raises nothing: `overlap_memo_run_no_crash`.] -/
 theorem spec_valid_accepted_all_memo (s : SchemaD) (fx : Fixes) (hfx : HeadVars fx) (d : Doc) (hne : NamesNonEmpty d)
     (h : ∀ r ∈ Rule.all, SpecAll r s fx d) : ∀ r ∈ Rule.all, SilentM s fx r d := by
   intro r hr
@@ -71,7 +71,7 @@ theorem spec_valid_accepted_all_memo (s : SchemaD) (fx : Fixes) (hfx : HeadVars 
     exact silentM_overlap.mpr (overlap_memo_no_false_alarm s fx hfx.2.2.2 d (h _ hr))
   · exact (silentM_of_ne ho).mpr (spec_valid_accepted_all s fx hfx d hne h r hr)
 
-/-- **verdict_iff for the whole chain of 26 rules as /repo runs it** -/
+/-- **verdict_iff for the 26 rules, the overlap rule as /repo runs it** [ALONE-RUN statement: every rule visitor is run in a chain of its own, `Silent` / `SilentM` count RECORDED ERRORS only (a run that raised is not excluded); the statement about the chain `validate_ast` runs, exception flag included, is in `Props/C06_chain.lean`: `chainM_silent_iff_spec`, `verdictM_iff_spec` - proved FROM this theorem and `chainM_silent_iff_alone`.] -/
 theorem verdict_iff_all_memo (s : SchemaD) (fx : Fixes) (hfx : HeadVars fx) (hs : SchemaOutputs s) (d : Doc)
     (hd : DocOkM s d) : (∀ r ∈ Rule.all, SilentM s fx r d) ↔ (∀ r ∈ Rule.all, SpecAll r s fx d) :=
   ⟨accepted_spec_valid_all_memo s fx hfx hs d hd, spec_valid_accepted_all_memo s fx hfx d hd.names⟩
@@ -93,7 +93,9 @@ theorem verdict_memo_neutral (s : SchemaD) (fx : Fixes) (hfx : HeadVars fx) (hs 
     (hd : DocOk s d) : (∀ r ∈ Rule.all, SilentM s fx r d) ↔ (∀ r ∈ Rule.all, Silent s fx r d) :=
   (verdict_iff_all_memo s fx hfx hs d (docOkM_of_docOk hd)).trans (verdict_iff_all s fx hfx hs d hd).symm
 
-/-- **attribution** for the chain with the memoised overlap rule: if the clause of exactly one rule fails, that rule
+/-- **attribution**, the overlap rule being the memoised one (on the rules run ALONE: "that rule alone reports, the others
+    alone are silent"; that the CHAIN then records an error follows from `chainM_silent_iff_alone`, WHICH member's error
+    it records is not proved): if the clause of exactly one rule fails, that rule
     reports and no other does (same visible exception as `attribution_all`) -/
 theorem attribution_all_memo (s : SchemaD) (fx : Fixes) (hfx : HeadVars fx) (hs : SchemaOutputs s) (d : Doc)
     (hd : DocOkM s d) (r : Rule) (hr : r ∈ Rule.all) (hbad : ¬ SpecAll r s fx d)
